@@ -425,7 +425,10 @@ fn run_abeq<const N: usize>(o1: &str, o2: &str) -> String {
     apply_ops(&mut a, o1, |_, _| {});
     apply_ops(&mut b, o2, |_, _| {});
     let r = catch_unwind(AssertUnwindSafe(|| {
-        let dbg_same = format!("{:?}", a) == format!("{:?}", &*a)
+        let dbg_same = format!("{:.3?}", a) == format!("{:.3?}", &*a)
+            && format!("{:.40?}", b) == format!("{:.40?}", &*b)
+            && format!("{:10.2x?}", a) == format!("{:10.2x?}", &*a)
+            && format!("{:?}", a) == format!("{:?}", &*a)
             && format!("{:x?}", a) == format!("{:x?}", &*a)
             && format!("{:#?}", b) == format!("{:#?}", &*b);
         format!("eq:{}:{}:{}", (a == b) as u8, (*a == *b) as u8, dbg_same as u8)
